@@ -27,6 +27,8 @@ for d in sorted(glob.glob(os.path.join(V, "seeded", "C*-*"))):
     pid = (m.get("check") or {}).get("property_checked") or m.get("property") or os.path.basename(d)[:3]
     if only and pid not in only and os.path.basename(d)[:3] not in only:
         continue
+    if os.environ.get("ONLY_ROUND") and f"-r{os.environ['ONLY_ROUND']}-" not in os.path.basename(d):
+        continue
     dirs.append((d, pid))
 import queue
 wts = queue.Queue()
